@@ -205,6 +205,30 @@ def walk(n):
         stack.extend(children(x))
 
 
+def walk_all(n):
+    """every node object reachable from `n`: symbols, whitespace nodes, keys and values included"""
+    from mesonbuild.mparser import BaseNode
+    stack = [n]
+    seen = set()
+    while stack:
+        x = stack.pop()
+        if id(x) in seen:
+            continue
+        seen.add(id(x))
+        yield x
+        for v in vars(x).values():
+            if isinstance(v, BaseNode):
+                stack.append(v)
+            elif isinstance(v, (list, tuple)):
+                stack.extend(y for y in v if isinstance(y, BaseNode))
+            elif isinstance(v, dict):
+                for kk, vv in v.items():
+                    if isinstance(kk, BaseNode):
+                        stack.append(kk)
+                    if isinstance(vv, BaseNode):
+                        stack.append(vv)
+
+
 _NAME_RE = re.compile(r'\\N\{([^}]+)\}')
 
 
@@ -352,27 +376,55 @@ def run_one(mods, code: str) -> Outcome:
         viol.append((key, 'RawPrinter(parse(s)) != s'))
         tags.append(key)
     else:
-        # spans of calls and arrays (only meaningful when the print is faithful)
+        # positions (only meaningful when the print is faithful). Everything is recomputed from the input text
+        # with an independent '\n'-only line table; the reference text of a construct is taken twice, again
+        # independently: printed by RawPrinter from its parts, and cut by the lexer's own offsets (bytespan),
+        # which do not depend on the line bookkeeping.
         offs = line_offsets(code)
-        for n in walk(tree):
+
+        def at(ln: int, col: int) -> T.Optional[int]:
+            if isinstance(ln, int) and isinstance(col, int) and 1 <= ln <= len(offs) and col >= 0:
+                return offs[ln - 1] + col
+            return None
+
+        for n in walk_all(tree):
             k = type(n).__name__
-            if k == 'FunctionNode':
-                core = raw_print(RawPrinter, n.func_name) + raw_print(RawPrinter, n.lpar) + \
-                    raw_print(RawPrinter, n.args) + n.rpar.value
-            elif k == 'ArrayNode':
-                core = raw_print(RawPrinter, n.lbracket) + raw_print(RawPrinter, n.args) + n.rbracket.value
-            else:
-                continue
-            tags.append('span:' + k)
-            try:
-                cut = code[offs[n.lineno - 1] + n.colno: offs[n.end_lineno - 1] + n.end_colno]
-            except IndexError:
-                cut = None
-            if cut != core:
-                has_nl_str = any(t.tid in ('string', 'fstring') and '\n' in t.value
-                                 for t in mparser.Lexer(code).lex('f'))
-                key = 'span:newline-in-single-quoted-string' if has_nl_str else 'span:other'
-                viol.append((key, f'text[span] of {k} at {n.lineno}:{n.colno} is {cut!r}, construct is {core!r}'))
+            bad: T.Optional[str] = None
+            key = 'span:other'
+            if k in ('FunctionNode', 'MethodNode', 'ArrayNode'):
+                if k == 'FunctionNode':
+                    first, last = n.func_name, n.rpar
+                    core = raw_print(RawPrinter, n.func_name) + raw_print(RawPrinter, n.lpar) + \
+                        raw_print(RawPrinter, n.args) + n.rpar.value
+                elif k == 'MethodNode':      # the recorded extent of a method call starts at the method name
+                    first, last = n.name, n.rpar
+                    core = raw_print(RawPrinter, n.name) + raw_print(RawPrinter, n.lpar) + \
+                        raw_print(RawPrinter, n.args) + n.rpar.value
+                else:
+                    first, last = n.lbracket, n.rbracket
+                    core = raw_print(RawPrinter, n.lbracket) + raw_print(RawPrinter, n.args) + n.rbracket.value
+                tags.append('span:' + k)
+                a, b = at(n.lineno, n.colno), at(n.end_lineno, n.end_colno)
+                cut = code[a:b] if a is not None and b is not None else None
+                by_offsets = code[first.bytespan[0]:last.bytespan[1]]
+                if cut != core or cut != by_offsets:
+                    bad = (f'text[span] of {k} at {n.lineno}:{n.colno}-{n.end_lineno}:{n.end_colno} is {cut!r}, '
+                           f'construct is {core!r}')
+            elif k in ('IdNode', 'NumberNode', 'StringNode', 'BooleanNode', 'SymbolNode') and \
+                    getattr(n, 'bytespan', (0, 0)) != (0, 0):
+                # a token's line/column must address the character at which the lexer found it
+                a = at(n.lineno, n.colno)
+                if a != n.bytespan[0]:
+                    key = 'position:token-line-column'
+                    bad = (f'{k} {code[n.bytespan[0]:n.bytespan[1]]!r} found at offset {n.bytespan[0]} is recorded at '
+                           f'{n.lineno}:{n.colno}, which is offset {a}')
+            elif k == 'WhitespaceNode':
+                a = at(n.lineno, n.colno)
+                if a is None or code[a:a + len(n.value)] != n.value:
+                    key = 'position:token-line-column'
+                    bad = f'whitespace/comment {n.value!r} is recorded at {n.lineno}:{n.colno}, where the text differs'
+            if bad:
+                viol.append((key, bad))
                 tags.append(key)
                 break
     # second observation route: the spans AstJSONPrinter reports are the ones on the node objects
@@ -691,7 +743,7 @@ TRIVIA_INLINE = ['', '', ' ', ' ', ' ', '  ', '\t', ' \\\n', '\\\n  ', ' \\ # c\
 TRIVIA_NL = ['\n', '\n', '\n', ' \n', '\n\n', ' # c\n', '\n  ', '  # é\n\n', '\t\n    ', ' \\\n\n']
 SLOT_IDS = ['a', 'b', 'x_1', 'foo', 'notx', 'inx', 'iff', 'endifx', 'f']
 SLOT_NUMS = ['0', '1', '42', '0x1F', '0b1', '0o7']
-SLOT_STRS = ["'s'", "''", "'a b'", "'\\n'", "f'@x@'", "'" * 3 + 'm' + "'" * 3, "'" * 3 + 'a\nb' + "'" * 3,
+SLOT_STRS = ["'s'", "''", "'a b'", "'\\n'", "f'@x@'", "'a\nb'", "f'\nq'", "f'x\n\ny'", "'\n'", "'" * 3 + 'm' + "'" * 3, "'" * 3 + 'a\nb' + "'" * 3,
              "f" + "'" * 3 + '\n' + "'" * 3, "'#'", "'\\''"]
 
 GRAMMAR: T.Dict[str, T.List[T.List[str]]] = {
